@@ -25,7 +25,7 @@ from pathlib import Path
 VERIF = Path(__file__).resolve().parent.parent
 SPEC = VERIF / "spec"
 WORK = VERIF / ".work"
-EVID = VERIF / "evidence"
+EVID = Path(os.environ["VERIF_EVIDENCE_DIR"]) if os.environ.get("VERIF_EVIDENCE_DIR") else VERIF / "evidence"  # (trial runs on patched copies write elsewhere)
 REPLAYS = VERIF / "replays"
 KNOWN = VERIF / "known_findings.json"
 TLA_JAR = "/opt/veriftools/tla/tla2tools.jar"
